@@ -956,6 +956,8 @@ namespace
 	}
     }
 
+    size_t row0 = strtoull (arg (a, "row0", "0").c_str (), nullptr, 10);
+    size_t row1 = strtoull (arg (a, "row1", "1000000").c_str (), nullptr, 10);
     std::stringstream ss;
     ss << "\"st\":\"ok\",\"n\":" << pool.size () << ",\"pool\":[";
     for (size_t i = 0; i < pool.size (); ++i)
@@ -974,7 +976,7 @@ namespace
 	  }
 	std::string m;
 	m.reserve (pool.size () * pool.size ());
-	for (size_t i = 0; i < pool.size (); ++i)
+	for (size_t i = row0; i < row1 && i < pool.size (); ++i)
 	  for (size_t j = 0; j < pool.size (); ++j)
 	    {
 	      zw_error *err;
